@@ -183,3 +183,34 @@ Proof.
   destruct (format_parse_error_shape _ _ _ _ _ Ho Ef) as (lno & ctx & pad & Hl & Et).
   exists path, t, msg, lno, ctx, pad. repeat split; assumption.
 Qed.
+
+(* ---- the worker thread's glue (task::Runner::start) ---- *)
+
+Theorem worker_result_total showinc depfile run : exists r, worker_result showinc depfile run = Ok r.
+Proof.
+  unfold worker_result. destruct (run_task_total showinc depfile run) as [((r & ls) & E)|(t & E)]; rewrite E; eauto.
+Qed.
+
+(* a malformed depfile fails the step: the command's success is turned into a failure whose output
+   is the parse error naming the depfile, and nothing is reported as discovered (so nothing is
+   recorded: C05_record_only_after_success) *)
+Theorem worker_malformed_depfile_fails_step showinc path t run e :
+  cr_term run = 0%N -> depfile_parse t = Err e ->
+  exists msg lno ctx pad, 1 <= lno /\
+    worker_result showinc (Some (path, Some t)) run = Ok (mkTR 1%N (error_text path msg lno ctx pad ++ [10%N]) None).
+Proof.
+  intros Ht He. unfold worker_result.
+  destruct (run_task_total showinc (Some (path, Some t)) run) as [((r & ls) & E)|(txt & E)].
+  - exfalso. rewrite run_task_success_depfile in E by exact Ht. unfold read_depfile in E.
+    destruct (depfile_parse_named_cases path t) as [(m & _ & E2) | (msg & o & txt & e' & _ & _ & _ & E1 & _)].
+    + rewrite E2 in He. discriminate He.
+    + rewrite E1 in E. cbn [bind] in E. discriminate E.
+  - rewrite E. destruct (run_task_error_text _ _ _ _ E) as (_ & path' & t' & msg & lno & ctx & pad & Ed & Hl & Et & _).
+    inversion Ed; subst. exists msg, lno, ctx, pad. split; [exact Hl | reflexivity].
+Qed.
+
+(* and only that: whenever the depfile parses (or is missing, or the command failed) the worker's
+   result is run_task's *)
+Theorem worker_result_is_run_task showinc depfile run r ls :
+  run_task showinc depfile run = Ok (r, ls) -> worker_result showinc depfile run = Ok r.
+Proof. intros E. unfold worker_result. now rewrite E. Qed.
